@@ -61,7 +61,8 @@ def hygiene():
             cc()
         ast_nodes.MAX_EMPTY = 100
         from xlcalculator.xlfunctions import xl
-        for name in ('SPY', 'FLAKY', 'BOOM'):
+        for name in ('SPY', 'FLAKY', 'BOOM', 'WHO') + tuple(
+                k for k in list(xl.FUNCTIONS) if k.startswith('FAIL_')):
             xl.FUNCTIONS.pop(name, None)
     except Exception:
         pass
